@@ -13,7 +13,8 @@ import os
 import re
 import tomllib
 
-from ..flow import arg_origins
+from ..flow import arg_origins, origins
+from ..util import where
 from ..mir import CallSite, op_local
 from ..panics import sources_in
 
@@ -142,6 +143,28 @@ def check(ctx):
         for c in sp:
             for g in c.gbodies:
                 spawn_closures.append((c, g))
+        # every accepted connection gets its thread: a branch of the loop body that decides between "spawn" and "next iteration"
+        # may only test the accepted item itself (`Ok(stream)` vs `Err`), never a count of live threads, a quota or any other state —
+        # tacd has no timeouts, so stalled clients would keep such a cap exhausted and the CA's connection would be dropped unanswered
+        spb = {c.bb for c in sp}
+        for u in sorted(sccset):
+            t = start.term(u)
+            if t["t"] != "switch" or not spb:
+                continue
+            succs = [v for v in start.succ[u] if v in sccset]
+            to_spawn = [v for v in succs if spb & start.reachable([v], removed_nodes=[nx.bb])]
+            skips = [v for v in succs if nx.bb in start.reachable([v], removed_nodes=list(spb)) and not (spb & {v})]
+            if not to_spawn or not [v for v in skips if v not in to_spawn or True]:
+                continue
+            only_skip = [v for v in skips if not (spb & start.reachable([v], removed_nodes=[nx.bb]))]
+            if not only_skip:
+                continue
+            dsl = origins(start, t["discr"])
+            upstream = {x.bb for x in arg_origins(nx, 0).calls}
+            foreign = [x for x in dsl.calls if x.bb != nx.bb and x.bb not in upstream and not (x.fn or "").startswith(("core::ops::try_trait", "core::result::Result", "core::option::Option", "core::convert", "core::iter"))]
+            ctx.require(R4, any(x.bb == nx.bb for x in dsl.calls) and not foreign, where(start, u),
+                        "the only test between accepting a connection and spawning its thread is on the accepted item itself (also tested: %s)" % sorted({x.name for x in foreign}),
+                        [START, "connection-dropped-by-policy"])
     ctx.floor(R1, "per-connection closures passed to thread::spawn", len(spawn_closures), 2)
     # R4: accept only within closures
     for c in start.calls_to("*SslAcceptor::accept"):
